@@ -63,8 +63,12 @@ class Gen:
         if k == "Sparse":
             ne = r.randint(0, min(6, m * n))
             pos = r.sample([(i, j) for i in range(m) for j in range(n)], ne)  # no duplicate coordinates (cola's constructor rejects them)
-            if self.sparse_sorted:  # within-row column order must be ascending (recorded finding sparse_unsorted_cols)
-                pos = sorted(pos)
+            if self.sparse_sorted:
+                # recorded finding sparse_unsorted_cols: the constructor pairs an unstable argsort of the rows with scipy's
+                # column-sorted CSR indices, so (also after transposition) at most one entry per row and per column is safe
+                q = min(m, n)
+                rows_, cols_ = r.sample(range(m), q), r.sample(range(n), q)
+                pos = sorted(zip(rows_, cols_))[:r.randint(0, q)]
             ent = [[i, j, self.val(dt)] for i, j in pos]
             return dict(k="Sparse", dt=dt, m=m, n=n, ent=ent)
         if k == "Diag":
